@@ -39,6 +39,26 @@ CORPUS = [
     '10 PUT$(PAD("x", 300), 1)\n20 a$ = GET$(1)\n30 PUNCH LEN(a$), a$\n40 PUT$(PAD("y", 256), 2) : SAVE LEN(GET$(2))',
     '10 PUNCH 1\n20 PUNCH "a" + 1',
 ]
+# documented ("standard") values, independent of the model and of the generated tables: the failing-input search
+# of protocol P (e.g. a keyword bound to the wrong token makes model and code agree with each other)
+GOLDEN = [
+    ('10 PUNCH 7 XOR 2, 6 AND 3, 6 OR 3, NOT 0, 1 < 2, 2 <= 2, 3 <> 3, 2 >= 3, 1 = 1, 5 > 4', [5, 2, 7, -1, 1, 1, 0, 0, 1, 1]),
+    ('10 PUNCH 1 + 2 * 3, (1 + 2) * 3, 8 / 4 / 2, 2 - 3 - 4, 10 - 2 * 3 + 1, 1 < 2 AND 2 < 3, 1 OR 0 AND 0', [7, 9, 1, -5, 5, 1, 1]),
+    ('10 PUNCH ABS(-3), SGN(-2), SGN(0), FLOOR(2.7), CEIL(2.1), FLOOR(-2.5), SQRT(16), EXP(0), LOG(1), LOG10(1000), SIN(0), COS(0), ARCTAN(0)',
+     [3, -1, 0, 2, 3, -3, 4, 1, 0, 3, 0, 1, 0]),
+    ('10 PUNCH LEN("hello"), ASC("A"), INSTR("hello", "ll"), INSTR("hello", "z"), VAL("12.5"), LEN(TRIM("  a b  ")), LEN(LTRIM("  a ")), LEN(RTRIM(" a  ")), LEN(PAD("ab", 5))',
+     [5, 65, 3, 0, 12.5, 3, 2, 2, 5]),
+    ('10 PUNCH CHR$(65) + "b", MID$("abcdef", 2, 3), MID$("abcdef", 4), "a" + "b" = "ab", "a" < "b", "b" < "a"', ["Ab", "bcd", "def", 1, 1, 0]),
+    ('10 FOR i = 1 TO 3 : PUNCH i : NEXT i\n20 FOR i = 3 TO 1 STEP -1 : PUNCH i : NEXT i\n30 FOR i = 1 TO 2 STEP 0.5 : PUNCH i : NEXT i\n40 PUNCH i',
+     [1, 2, 3, 3, 2, 1, 1, 1.5, 2, 2.5]),
+    ('10 i = 0\n20 WHILE i < 3\n30 i = i + 1 : PUNCH i\n40 WEND\n50 IF i = 3 THEN PUNCH 10 ELSE PUNCH 20\n60 IF i = 4 THEN PUNCH 30 ELSE PUNCH 40\n70 IF i THEN 90\n80 PUNCH 80\n90 PUNCH 90',
+     [1, 2, 3, 10, 40, 90]),
+    ('10 GOSUB 100 : PUNCH 2\n20 ON 2 GOTO 40, 50, 60\n40 PUNCH 40\n50 PUNCH 50\n60 ON 1 GOSUB 200 : PUNCH 61\n70 END\n100 PUNCH 1 : GOSUB 200 : RETURN\n200 PUNCH 200 : RETURN',
+     [1, 200, 2, 50, 200, 61]),
+    ('10 DATA 1, "two", 3\n20 READ a, b$, c : PUNCH a, b$, c\n30 RESTORE : READ d : PUNCH d\n40 DATA 4\n50 READ e$, f, g : PUNCH e$, f, g', [1, "two", 3, 1, "two", 3, 4]),
+    ('10 DIM a(3), b$(2) : a(1) = 5 : a(3) = 7 : b$(2) = "x" : PUNCH a(0), a(1), a(3), b$(2), c(10)\n20 PUT(2.5, 1, 2) : PUT$("s", 3) : PUNCH GET(1, 2), GET(2, 1), GET$(3)',
+     [0, 5, 7, "x", 0, 2.5, 0, "s"]),
+]
 PEEKPOKE = ['10 PUNCH PEEK(8)', '10 POKE 8, 1']
 
 
@@ -289,6 +309,24 @@ def run(ctx):
         if rs["p"]["status"].startswith("sig"):
             ctx.finding("basic-peek-poke", f"BASIC PEEK/POKE dereference an arbitrary address: {text!r} ends with {rs['p']['status']}",
                         {"program": text, "hosts": ["punch"]})
+    # ---- documented values on the real engine (and on the model)
+    gm = run_model(ctx, [(i, 0, t) for i, (t, _) in enumerate(GOLDEN)])
+    gr = run_real(ctx, exe, [(i, "punch", t) for i, (t, _) in enumerate(GOLDEN)])
+    for i, (t, want) in enumerate(GOLDEN):
+        got = gr[i]["items"]
+        okr = gr[i]["status"] == "ok" and len(got) == len(want) and all(close(a, float(b) if not isinstance(b, str) else b, 1e-9) for a, b in zip(got, want))
+        gotm = gm[i]["punch"]
+        okm = gm[i]["status"] == "ok" and len(gotm) == len(want) and all(close(a, float(b) if not isinstance(b, str) else b, 1e-9) for a, b in zip(gotm, want))
+        if not okr:
+            ctx.violation("documented value: the real engine does not deliver the standard result",
+                          {"program": t, "hosts": ["punch"], "expected": [repr(x) for x in want], "real": [repr(x) for x in got],
+                           "real_status": gr[i]["status"], "real_err": gr[i]["err"][:300]})
+            break
+        if not okm:
+            ctx.violation("documented value: the reference evaluator (model) does not deliver the standard result",
+                          {"program": t, "expected": [repr(x) for x in want], "model": [repr(x) for x in gotm]}, found_input=False)
+            break
+    ctx.cov["golden_programs"] = len(GOLDEN)
     progs = [dict(text=t, kind="corpus", hist={}, nlines=t.count("\n") + 1) for t in CORPUS] + make_programs(ctx, n)
     stats = dict(programs=len(progs), judged_pairs=0, value_cells=0, ref_ok=0, ref_err=0, ref_fuel=0, ref_unsupported=0, ref_ub=0,
                  skipped_large=0, real_timeouts=0, ub_differences_not_judged=0, error_class_same=0, error_class_other=0, hp_programs=0)
